@@ -591,3 +591,114 @@ def selftest(n, seed, drv, solve=True, verbose=False):
             if verbose:
                 print('VIOLATION', i, [(v['oracle'], v['detail']) for v in r['violations']][:3])
     return {'counts': counts, 'features': feats, 'disagreements': dis, 'violations': viol}
+
+
+# ------------------------------------------------------------------ C12: the holding-time limit under a change of the main time unit
+# A "hold" case is unit-free: volumes per grid step, durations in whole grid steps.  `unit_hold_scenario(case, unit)` expresses it
+# for one main time unit the way a user would: rate = volume per step / (step / unit), duration = steps x (step / unit), each
+# rounded ONCE to the nearest float (k/24, k/96, k*60 ...).  Used by the stream "non-dyadic unit change" of harness/props/c12.py.
+UNIT_S_C12 = {'s': 1, 'min': 60, 'h': 3600, 'd': 86400, 'W': 604800}
+
+
+def unit_rate(vol_per_step, step_s, unit):
+    """volume per grid step -> rate per main time unit (nearest float of the exact quotient)"""
+    return float(Fraction(vol_per_step) * Fraction(UNIT_S_C12[unit], step_s))
+
+
+def unit_duration(steps, step_s, unit):
+    """a number of grid steps -> duration in main time units (nearest float of the exact quotient)"""
+    return float(Fraction(steps) * Fraction(step_s, UNIT_S_C12[unit]))
+
+
+def unit_grid(case, unit):
+    s = pd.Timestamp(case['start'])
+    return {'start': gen.iso(s), 'end': gen.iso(s + pd.Timedelta(seconds=case['step_s'] * case['T'])), 'freq': case['freq'],
+            'unit': unit, 'tz': None}
+
+
+def step_date(case, t):
+    return {'$dt': gen.iso(pd.Timestamp(case['start']) + pd.Timedelta(seconds=case['step_s'] * t))}
+
+
+def gen_unit_hold_case(rnd, freq, step_s, T, literal=False):
+    """a storage whose only (or best) profitable cycle needs the FULL maximal holding time of D grid steps.
+    literal: the two-contract situation in which the dependence on the unit was first seen (buy in one step, sell D steps later);
+    else a market (bid-ask spread) with a price series: cheap block, dear block ending D steps after the first cheap step, optional
+    further spikes at other distances, optional charging loss / holding cost / inflow / no-simultaneous-in-out / window / discounting."""
+    c = {'family': 'hold', 'freq': freq, 'step_s': step_s, 'T': T, 'start': '2021-01-01T00:00:00', 'focus': 'max_store_duration'}
+    if literal:
+        D = rnd.randint(1, T - 1)
+        c.update({'form': 'two-contracts', 'D': D, 't0': rnd.randint(0, T - 1 - D) if rnd.random() < 0.5 else 0, 'size': 10.0,
+                  'fill_in': 1, 'fill_out': 1, 'buy': 10.0, 'sell': 100.0, 'opts': {}})
+        return c
+    c['start'] = rnd.choice(['2021-01-01T00:00:00', '2021-06-14T00:00:00', '2022-02-03T06:00:00'])
+    fin, fout = rnd.choice([(1, 1), (1, 1), (2, 1), (1, 2), (2, 2)])
+    D = rnd.randint(1, T - 2)
+    if D < fin + fout - 1:
+        fin = fout = 1
+    t0 = rnd.randint(0, T - 1 - D)
+    size = rnd.choice([4.0, 8.0, 10.0])
+    p = [50.0 + gen.q8(rnd, 0, 2) for _ in range(T)]
+    for t in range(t0, t0 + fin):
+        p[t] = 10.0 + gen.q8(rnd, 0, 2)
+    for t in range(t0 + D - fout + 1, t0 + D + 1):
+        p[t] = 100.0 + gen.q8(rnd, 0, 2)
+    for _ in range(rnd.choice([0, 0, 1, 2])):
+        # further spikes: a cheap and a dear step at another distance (longer ones cannot be used, shorter ones are distractors)
+        a = rnd.randint(0, T - 2)
+        b = min(T - 1, a + max(1, D + rnd.choice([-2, -1, 1, 2, 3])))
+        if p[a] >= 50 and p[b] < 100 and a != b:
+            p[a] = 20.0 + gen.q8(rnd, 0, 2)
+            p[b] = max(p[b], 80.0 + gen.q8(rnd, 0, 2))
+    opts = {}
+    if rnd.random() < 0.3:
+        opts['eff_in'] = rnd.choice([0.5, 0.75, 0.875])
+    if rnd.random() < 0.3:
+        opts['cost_store_step'] = rnd.choice([0.125, 0.25, 0.5])      # cost per stored volume and grid step
+    if rnd.random() < 0.2:
+        opts['inflow_step'] = rnd.choice([0.125, 0.25, 0.5])          # volume per grid step
+    if rnd.random() < 0.2:
+        opts['no_simult_in_out'] = True
+    if rnd.random() < 0.25:
+        opts['window'] = [rnd.randint(0, t0), rnd.randint(t0 + D + 1, T)]
+    if rnd.random() < 0.15:
+        opts['wacc'] = rnd.choice([0.05, 0.1])                        # discounting: the exponent converts main time units to days
+    c.update({'form': 'market', 'D': D, 't0': t0, 'size': size, 'fill_in': fin, 'fill_out': fout, 'p': p, 'spread': rnd.choice([8.0, 16.0, 24.0]), 'opts': opts})
+    return c
+
+
+def unit_hold_scenario(case, unit, shift=0):
+    """the hold case expressed for main time unit `unit` (scenario for harness/scen.build); shift: the holding limit in grid steps
+    is D + shift (used to see whether the limit binds)"""
+    s, T = case['step_s'], case['T']
+    o = case.get('opts', {})
+    st = {'size': case['size'], 'cap_in': unit_rate(case['size'] / case['fill_in'], s, unit), 'cap_out': unit_rate(case['size'] / case['fill_out'], s, unit),
+          'start_level': 0.0, 'end_level': 0.0, 'max_store_duration': unit_duration(case['D'] + shift, s, unit)}
+    if 'eff_in' in o:
+        st['eff_in'] = o['eff_in']
+    if 'cost_store_step' in o:
+        st['cost_store'] = unit_rate(o['cost_store_step'], s, unit)
+    if 'inflow_step' in o:
+        st['inflow'] = unit_rate(o['inflow_step'], s, unit)
+    if o.get('no_simult_in_out'):
+        st['no_simult_in_out'] = True
+    if 'window' in o:
+        st['start'], st['end'] = step_date(case, o['window'][0]), step_date(case, o['window'][1])
+    wacc = {'wacc': o['wacc']} if 'wacc' in o else {}
+    st.update(wacc)
+    assets = [{'type': 'Storage', 'name': 'st', 'nodes': ['n'], 'args': st}]
+    if case['form'] == 'two-contracts':
+        cap = unit_rate(case['size'], s, unit)
+        t0, D = case['t0'], case['D']
+        prices = {'buy': [case['buy']] * T, 'sell': [case['sell']] * T}
+        assets.append({'type': 'SimpleContract', 'name': 'src', 'nodes': ['n'], 'args': {
+            'price': 'buy', 'min_cap': 0.0, 'max_cap': cap, 'start': step_date(case, t0), 'end': step_date(case, t0 + 1)}})
+        assets.append({'type': 'SimpleContract', 'name': 'snk', 'nodes': ['n'], 'args': {
+            'price': 'sell', 'min_cap': -cap, 'max_cap': 0.0, 'start': step_date(case, t0 + D), 'end': step_date(case, t0 + D + 1)}})
+    else:
+        # a market with a bid-ask spread (selling and buying back in the same step is not free: else no holding limit ever binds)
+        cap = unit_rate(2 * case['size'], s, unit)
+        prices = {'ask': [v + case['spread'] / 2 for v in case['p']], 'bid': [v - case['spread'] / 2 for v in case['p']]}
+        assets.append({'type': 'SimpleContract', 'name': 'buy', 'nodes': ['n'], 'args': dict({'price': 'ask', 'min_cap': 0.0, 'max_cap': cap}, **wacc)})
+        assets.append({'type': 'SimpleContract', 'name': 'sell', 'nodes': ['n'], 'args': dict({'price': 'bid', 'min_cap': -cap, 'max_cap': 0.0}, **wacc)})
+    return {'grid': unit_grid(case, unit), 'nodes': ['n'], 'prices': prices, 'assets': assets}
